@@ -5,6 +5,9 @@
 //!   input   : bytes:<seed> | toks:<seed> | rep:<seed> | gram:<seed> | gmut:<seed> | feat:<seed> | prog:<seed> | pmut:<seed>
 //!             | repo:<root>|<entry> | rmut:<root>|<entry>|<seed>          (repository inputs, includes from disk)
 //!             | hex:<bytes> | hexd:<root>|<entry>|<bytes>                  (literal entry file; minimised inputs)
+//!             | pp:<seed> | ppmut:<seed>      (preprocessor grammar: entry file + in-memory headers + its own API defines)
+//!             | syn:<seed> | synmut:<seed> | synone:<k>   (syntax-category generator, see c08_syn.rs)
+//!             | hexm:<entry>|<hex>|<name>|<hex>|...                        (literal multi-file input)
 //! observe : ok:<pipelines>:<output bytes> | err:<first line of the diagnostic> | panic:<site> | died:<signal> | timeout
 //! oracle  : (the property's own) the worker process survives, `compile` returns, an `Err` renders to a non-empty
 //!           message, and the time stays inside `BUDGET_BASE_MS + n^2 * BUDGET_NS_PER_BYTE2` (n = bytes loaded).
@@ -101,38 +104,68 @@ pub struct Material {
     pub entry: String,
     pub bytes: Vec<u8>,
     pub root: Option<String>,
+    /// further in-memory files the include handler hands out (preprocessor-grammar inputs)
+    pub files: Vec<(String, Vec<u8>)>,
+    /// command-line defines that belong to the input itself (appended to the request's)
+    pub defs: Vec<(String, String)>,
+}
+
+fn pp_material(p: PpProgram) -> Option<Material> {
+    let mut it = p.files.into_iter();
+    let (entry, main) = it.next()?;
+    Some(Material { entry, bytes: main.into_bytes(), root: None, files: it.map(|(n, t)| (n, t.into_bytes())).collect(), defs: p.defines })
 }
 
 pub fn materialise(input: &str) -> Option<Material> {
     let (kind, rest) = input.split_once(':')?;
-    let mem = |bytes: Vec<u8>| Some(Material { entry: "main.rssl".into(), bytes, root: None });
+    let mem = |bytes: Vec<u8>| Some(Material { entry: "main.rssl".into(), bytes, root: None, files: Vec::new(), defs: Vec::new() });
     match kind {
         "hex" => mem(unhex(rest)?),
         "hexd" => {
             let mut p = rest.splitn(3, '|');
             let (root, entry, h) = (p.next()?, p.next()?, p.next()?);
-            Some(Material { entry: entry.into(), bytes: unhex(h)?, root: Some(root.into()) })
+            Some(Material { entry: entry.into(), bytes: unhex(h)?, root: Some(root.into()), files: Vec::new(), defs: Vec::new() })
         }
+        "hexm" => {
+            let parts: Vec<&str> = rest.split('|').collect();
+            if parts.len() < 2 || parts.len() % 2 != 0 {
+                return None;
+            }
+            let mut files = Vec::new();
+            for c in parts[2..].chunks(2) {
+                files.push((c[0].to_string(), unhex(c[1])?));
+            }
+            Some(Material { entry: parts[0].into(), bytes: unhex(parts[1])?, root: None, files, defs: Vec::new() })
+        }
+        "pp" => pp_material(gen_pp(&mut Rng::new(rest.parse::<u64>().ok()?))),
+        "ppmut" => pp_material(gen_pp_mutated(&mut Rng::new(rest.parse::<u64>().ok()?))),
         "repo" => {
             let (root, entry) = rest.split_once('|')?;
             let bytes = std::fs::read(std::path::Path::new(root).join(entry)).ok()?;
-            Some(Material { entry: entry.into(), bytes, root: Some(root.into()) })
+            Some(Material { entry: entry.into(), bytes, root: Some(root.into()), files: Vec::new(), defs: Vec::new() })
         }
         "rmut" => {
             let mut p = rest.splitn(3, '|');
             let (root, entry, seed) = (p.next()?, p.next()?, p.next()?.parse::<u64>().ok()?);
             let bytes = std::fs::read(std::path::Path::new(root).join(entry)).ok()?;
             let bytes = mutate_bytes(&bytes, &mut Rng::new(seed));
-            Some(Material { entry: entry.into(), bytes, root: Some(root.into()) })
+            Some(Material { entry: entry.into(), bytes, root: Some(root.into()), files: Vec::new(), defs: Vec::new() })
         }
         _ => mem(generate(kind, rest.parse::<u64>().ok()?)?),
     }
 }
 
 /// the literal (`hex:` / `hexd:`) form of an input spec with other entry bytes
-pub fn literal_spec(m: &Material, bytes: &[u8]) -> String {
+pub fn literal_spec_files(m: &Material, bytes: &[u8], files: &[(String, Vec<u8>)]) -> String {
     match &m.root {
-        None => format!("hex:{}", hex(bytes)),
+        None if files.is_empty() && m.entry == "main.rssl" => format!("hex:{}", hex(bytes)),
+        None => {
+            let mut s = format!("hexm:{}|{}", m.entry, hex(bytes));
+            for (n, b) in files {
+                s.push_str(&format!("|{}|{}", n, hex(b)));
+            }
+            s
+        }
         Some(root) => format!("hexd:{}|{}|{}", root, m.entry, hex(bytes)),
     }
 }
@@ -151,6 +184,15 @@ impl rssl::text::IncludeHandler for Overlay<'_> {
                 Ok(contents) => {
                     self.loaded += contents.len();
                     Ok(rssl::text::FileData { real_name: file_name.to_string(), contents })
+                }
+                Err(_) => Err(rssl::text::IncludeError::FileNotText),
+            };
+        }
+        if let Some((name, bytes)) = self.m.files.iter().find(|(n, _)| n == file_name) {
+            return match String::from_utf8(bytes.clone()) {
+                Ok(contents) => {
+                    self.loaded += contents.len();
+                    Ok(rssl::text::FileData { real_name: name.clone(), contents })
                 }
                 Err(_) => Err(rssl::text::IncludeError::FileNotText),
             };
@@ -181,7 +223,7 @@ fn run_one(req: &Req) -> Res {
     let Some(m) = materialise(&req.input) else {
         return Res { obs: "bad-input".into(), oracle: "SKIP:input spec cannot be materialised".into(), micros: 0, nbytes: 0 };
     };
-    let defs: Vec<(&str, &str)> = req.defs.iter().map(|(a, b)| (a.as_str(), b.as_str())).collect();
+    let defs: Vec<(&str, &str)> = req.defs.iter().chain(m.defs.iter()).map(|(a, b)| (a.as_str(), b.as_str())).collect();
     let mut h = Overlay { m: &m, loaded: 0 };
     let t0 = Instant::now();
     let r = guard(|| {
@@ -234,7 +276,7 @@ fn run_staged(req: &Req) {
         defs[1].1 = "0";
         defs[2].1 = "1";
     }
-    defs.extend(req.defs.iter().map(|(a, b)| (a.as_str(), b.as_str())));
+    defs.extend(req.defs.iter().chain(m.defs.iter()).map(|(a, b)| (a.as_str(), b.as_str())));
     let _ = guard(|| {
         let mut h = Overlay { m: &m, loaded: 0 };
         let mut sm = rssl::text::SourceManager::new();
@@ -247,28 +289,44 @@ fn run_staged(req: &Req) {
         let Ok(ir) = rssl::typer::type_check(&ast) else { return };
         say("layout-check");
         let _ = rssl::ir::layout_checker::check_layout(&ir);
-        say("assign-bindings");
-        let params = match req.tgt {
-            Tgt::Dx => rssl::AssignBindingsParams::default(),
-            Tgt::Vk | Tgt::VkBa => rssl::AssignBindingsParams {
-                require_slot_type: false,
-                support_buffer_address: req.tgt.buffer_address(),
-                metal_slot_layout: false,
-                static_samplers_have_slots: true,
-            },
-            Tgt::Msl => rssl::AssignBindingsParams {
-                require_slot_type: false,
-                support_buffer_address: false,
-                metal_slot_layout: true,
-                static_samplers_have_slots: false,
-            },
+        // like compile(): every pipeline the mode selects gets its own binding assignment (its DefaultBindGroup
+        // applies there) and export; no-pipeline mode exports the module as a whole
+        let selections: Vec<Option<String>> = match &req.mode {
+            Mode::NoPipeline => vec![None],
+            Mode::All => ir.pipelines.iter().map(|p| Some(p.name.node.clone())).collect(),
+            Mode::Named(n) => ir.pipelines.iter().filter(|p| p.name.node == *n).map(|p| Some(p.name.node.clone())).collect(),
         };
-        let ir = ir.assign_api_bindings(&params);
-        say("export");
-        if req.tgt == Tgt::Msl {
-            let _ = rssl::msl::export_to_msl(&ir);
-        } else {
-            let _ = rssl::hlsl::export_to_hlsl(&ir, req.tgt != Tgt::Dx);
+        for sel in selections {
+            let module = match &sel {
+                None => ir.clone(),
+                Some(name) => match ir.clone().select_pipeline(name) {
+                    Some(m) => m,
+                    None => continue,
+                },
+            };
+            say("assign-bindings");
+            let params = match req.tgt {
+                Tgt::Dx => rssl::AssignBindingsParams::default(),
+                Tgt::Vk | Tgt::VkBa => rssl::AssignBindingsParams {
+                    require_slot_type: false,
+                    support_buffer_address: req.tgt.buffer_address(),
+                    metal_slot_layout: false,
+                    static_samplers_have_slots: true,
+                },
+                Tgt::Msl => rssl::AssignBindingsParams {
+                    require_slot_type: false,
+                    support_buffer_address: false,
+                    metal_slot_layout: true,
+                    static_samplers_have_slots: false,
+                },
+            };
+            let module = module.assign_api_bindings(&params);
+            say("export");
+            if req.tgt == Tgt::Msl {
+                let _ = rssl::msl::export_to_msl(&module);
+            } else {
+                let _ = rssl::hlsl::export_to_hlsl(&module, req.tgt != Tgt::Dx);
+            }
         }
     });
     // the whole call as the property observes it (pipeline selection included)
@@ -729,14 +787,43 @@ fn squeeze_pairs(s: &str) -> String {
     s.to_string()
 }
 
-/// Greedy delta debugging over lines, then over byte chunks; every candidate runs in a worker process
+/// A candidate while minimising: entry bytes, the other in-memory files, the command-line defines
+#[derive(Clone)]
+struct Cand {
+    entry: Vec<u8>,
+    files: Vec<(String, Vec<u8>)>,
+    defs: Vec<(String, String)>,
+}
+
+impl Cand {
+    fn comp(&self, k: usize) -> &Vec<u8> {
+        if k == 0 { &self.entry } else { &self.files[k - 1].1 }
+    }
+    fn with_comp(&self, k: usize, bytes: Vec<u8>) -> Cand {
+        let mut c = self.clone();
+        if k == 0 {
+            c.entry = bytes;
+        } else {
+            c.files[k - 1].1 = bytes;
+        }
+        c
+    }
+    fn size(&self) -> usize {
+        self.entry.len() + self.files.iter().map(|f| f.1.len() + 8).sum::<usize>() + self.defs.iter().map(|d| d.0.len() + d.1.len() + 8).sum::<usize>()
+    }
+}
+
+/// Greedy delta debugging: whole defines and files first, then per file over lines, then over byte chunks
+/// (define values too); every candidate runs in a worker process
 fn shrink(req: &Req, key: &str, budget_runs: usize, jobs: usize) -> (Req, Res, usize) {
     let m = materialise(&req.input).unwrap();
-    let mut best = m.bytes.clone();
+    let mut best = Cand { entry: m.bytes.clone(), files: m.files.clone(), defs: req.defs.iter().chain(m.defs.iter()).cloned().collect() };
+    let budget_runs = if best.files.is_empty() && best.defs.is_empty() { budget_runs } else { budget_runs * 2 };
     let mut runs = 0usize;
-    let mk = |bytes: &[u8]| {
+    let mk = |c: &Cand| {
         let mut r = req.clone();
-        r.input = literal_spec(&m, bytes);
+        r.input = literal_spec_files(&m, &c.entry, &c.files);
+        r.defs = c.defs.clone();
         r
     };
     // the literal form itself must fail the same way
@@ -752,74 +839,121 @@ fn shrink(req: &Req, key: &str, budget_runs: usize, jobs: usize) -> (Req, Res, u
     }
     let first_copy = Res { obs: first.obs.clone(), oracle: first.oracle.clone(), micros: first.micros, nbytes: first.nbytes };
     let mut best_res = first;
+    // one round of candidates: the first that still fails the same way becomes the new best
+    let mut try_cands = |cands: Vec<Cand>, best: &mut Cand, best_res: &mut Res, runs: &mut usize| -> bool {
+        for batch in cands.chunks(jobs.max(1) * 4) {
+            if *runs >= budget_runs {
+                return false;
+            }
+            let lines: Vec<String> = batch.iter().map(|c| mk(c).line()).collect();
+            let rs = supervise(&lines, jobs);
+            *runs += lines.len();
+            if let Some((i, r)) = rs.into_iter().enumerate().find(|(_, r)| base_key(&r.oracle) == key) {
+                *best = batch[i].clone();
+                *best_res = r;
+                return true;
+            }
+        }
+        false
+    };
+    // ---- whole defines, whole files
+    loop {
+        let mut cands = Vec::new();
+        for i in 0..best.defs.len() {
+            let mut c = best.clone();
+            c.defs.remove(i);
+            cands.push(c);
+        }
+        for i in 0..best.files.len() {
+            let mut c = best.clone();
+            c.files.remove(i);
+            cands.push(c);
+        }
+        if cands.is_empty() || !try_cands(cands, &mut best, &mut best_res, &mut runs) {
+            break;
+        }
+    }
+    // ---- per component: lines, then bytes
     for by_lines in [true, false] {
-        let mut chunk = usize::MAX;
-        loop {
-            let units: Vec<(usize, usize)> = if by_lines {
-                let mut v = Vec::new();
-                let mut s = 0;
-                for (i, b) in best.iter().enumerate() {
-                    if *b == b'\n' {
-                        v.push((s, i + 1));
-                        s = i + 1;
+        for comp in 0..=best.files.len() {
+            let mut chunk = usize::MAX;
+            loop {
+                let cur = best.comp(comp).clone();
+                let units: Vec<(usize, usize)> = if by_lines {
+                    let mut v = Vec::new();
+                    let mut s = 0;
+                    for (i, b) in cur.iter().enumerate() {
+                        if *b == b'\n' {
+                            v.push((s, i + 1));
+                            s = i + 1;
+                        }
                     }
+                    if s < cur.len() {
+                        v.push((s, cur.len()));
+                    }
+                    v
+                } else {
+                    (0..cur.len()).map(|i| (i, i + 1)).collect()
+                };
+                if units.is_empty() || (units.len() <= 1 && by_lines) {
+                    break;
                 }
-                if s < best.len() {
-                    v.push((s, best.len()));
+                if chunk == usize::MAX {
+                    chunk = (units.len() / 2).max(1);
                 }
-                v
-            } else {
-                (0..best.len()).map(|i| (i, i + 1)).collect()
-            };
-            if units.len() <= 1 && by_lines {
-                break;
-            }
-            if chunk == usize::MAX {
-                chunk = (units.len() / 2).max(1);
-            }
-            chunk = chunk.min(units.len().max(1));
-            // candidates: remove units[k*chunk .. (k+1)*chunk]
-            let mut cands: Vec<Vec<u8>> = Vec::new();
-            let mut k = 0;
-            while k < units.len() {
-                let a = units[k].0;
-                let b = units[(k + chunk).min(units.len()) - 1].1;
-                let mut c = best[..a].to_vec();
-                c.extend_from_slice(&best[b..]);
-                if c.len() < best.len() {
-                    cands.push(c);
+                chunk = chunk.min(units.len().max(1));
+                // candidates: remove units[k*chunk .. (k+1)*chunk]
+                let mut cands: Vec<Cand> = Vec::new();
+                let mut k = 0;
+                while k < units.len() {
+                    let a = units[k].0;
+                    let b = units[(k + chunk).min(units.len()) - 1].1;
+                    let mut c = cur[..a].to_vec();
+                    c.extend_from_slice(&cur[b..]);
+                    if c.len() < cur.len() {
+                        cands.push(best.with_comp(comp, c));
+                    }
+                    k += chunk;
                 }
-                k += chunk;
-            }
-            let mut improved = false;
-            for batch in cands.chunks(jobs.max(1) * 4) {
+                let improved = try_cands(cands, &mut best, &mut best_res, &mut runs);
                 if runs >= budget_runs {
                     break;
                 }
-                let lines: Vec<String> = batch.iter().map(|c| mk(c).line()).collect();
-                let rs = supervise(&lines, jobs);
-                runs += lines.len();
-                if let Some((i, r)) = rs.into_iter().enumerate().find(|(_, r)| base_key(&r.oracle) == key) {
-                    best = batch[i].clone();
-                    best_res = r;
-                    improved = true;
-                    break;
+                if !improved {
+                    if chunk == 1 {
+                        break;
+                    }
+                    chunk = (chunk / 2).max(1);
                 }
             }
             if runs >= budget_runs {
                 break;
-            }
-            if !improved {
-                if chunk == 1 {
-                    break;
-                }
-                chunk = (chunk / 2).max(1);
             }
         }
         if runs >= budget_runs {
             break;
         }
     }
+    // ---- define values: empty, then byte by byte
+    for i in 0..best.defs.len() {
+        loop {
+            let v = best.defs[i].1.clone().into_bytes();
+            let mut cands = Vec::new();
+            for k in 0..v.len() {
+                let mut w = v.clone();
+                w.remove(k);
+                if let Ok(t) = String::from_utf8(w) {
+                    let mut c = best.clone();
+                    c.defs[i].1 = t;
+                    cands.push(c);
+                }
+            }
+            if cands.is_empty() || !try_cands(cands, &mut best, &mut best_res, &mut runs) {
+                break;
+            }
+        }
+    }
+    let _ = best.size();
     if short {
         CURRENT_WATCHDOG_MS.store(WATCHDOG_MS, std::sync::atomic::Ordering::SeqCst);
         let confirm = supervise_seq(&[mk(&best).line()]).into_iter().next().unwrap();
@@ -939,6 +1073,162 @@ fn cond_case(letters: &str, out: &mut Out, hist: &mut Hist) {
     out.case(&format!("C08.cond\t{}", letters), &obs, &oracle);
 }
 
+/// C08.defscan: definitions (in a header, in the entry file or as API defines) + one `#if` line; the real
+/// `preprocess` is compared with the model of `Macro::parse` + `apply_macros(.., true)` with locations
+/// (`Model/DefinedLoc.lean`).  The request carries the *real lexer's* tokens of every definition and of the
+/// condition with their raw locations.  Scenario spec: `<placement h|m|a>;<def>;<def>;..;<cond>` in hex.
+fn defscan_case(spec_hex: &str, out: &mut Out, hist: &mut Hist) {
+    use rssl::text::tokens::Token;
+    use rssl::text::{Locate, LocateEnd};
+    let Some(spec) = unhex(spec_hex).and_then(|b| String::from_utf8(b).ok()) else { return };
+    let parts: Vec<&str> = spec.split(';').collect();
+    if parts.len() < 2 {
+        return;
+    }
+    let placement = parts[0];
+    let defs: Vec<&str> = parts[1..parts.len() - 1].to_vec();
+    let cond = parts[parts.len() - 1];
+    // ---- the files and where their parts are
+    let mut main = String::new();
+    let mut header = String::new();
+    let mut api: Vec<(String, String)> = Vec::new();
+    // (file index: 0 main, 1.. api defines, last header; byte offset of the fragment; fragment text)
+    let mut def_frags: Vec<(usize, usize, String)> = Vec::new();
+    match placement {
+        "h" => {
+            main.push_str("#include \"h.h\"\n");
+            for d in &defs {
+                header.push_str("#define");
+                def_frags.push((usize::MAX, header.len(), format!(" {}", d)));
+                header.push_str(&format!(" {}\n", d));
+            }
+        }
+        "m" => {
+            for d in &defs {
+                main.push_str("#define");
+                def_frags.push((0, main.len(), format!(" {}", d)));
+                main.push_str(&format!(" {}\n", d));
+            }
+        }
+        _ => {
+            for (k, d) in defs.iter().enumerate() {
+                // NAME(params) VALUE: the API wants name and value apart; split at the first blank outside parentheses
+                let mut depth = 0;
+                let mut cut = d.len();
+                for (i, c) in d.char_indices() {
+                    match c {
+                        '(' => depth += 1,
+                        ')' => depth -= 1,
+                        ' ' if depth == 0 => {
+                            cut = i;
+                            break;
+                        }
+                        _ => {}
+                    }
+                }
+                let (n, v) = (d[..cut].to_string(), d[cut..].trim_start_matches(' ').to_string());
+                def_frags.push((1 + k, 0, format!("{} {}", n, v)));
+                api.push((n, v));
+            }
+        }
+    }
+    main.push_str("#if");
+    let cond_frag = (0usize, main.len(), format!(" {}", cond));
+    main.push_str(&format!(" {}\n#endif\n", cond));
+    // ---- base locations in registration order: entry file, API defines, header
+    let mut bases: Vec<u32> = vec![0];
+    let mut next = main.len() as u32 + 1;
+    for (n, v) in &api {
+        bases.push(next);
+        next += format!("{} {}", n, v).len() as u32 + 1;
+    }
+    let header_base = next;
+    // ---- tokens of the fragments, from the real lexer
+    let mut names: Vec<String> = vec!["defined".to_string()];
+    let mut show = |frag: &(usize, usize, String)| -> Option<String> {
+        let base = if frag.0 == usize::MAX { header_base } else { bases[frag.0] } + frag.1 as u32;
+        let toks = guard(|| rssl_preprocess::verif::lex(&frag.2, rssl::text::SourceLocation::first().offset(base), false)).ok()?.ok()?;
+        let mut v = Vec::new();
+        for t in &toks {
+            let k = match &t.0 {
+                Token::Id(id) => {
+                    let i = match names.iter().position(|n| *n == id.0) {
+                        Some(i) => i,
+                        None => {
+                            names.push(id.0.clone());
+                            names.len() - 1
+                        }
+                    };
+                    format!("i{}", i)
+                }
+                Token::LeftParen => "l".into(),
+                Token::RightParen => "r".into(),
+                Token::Comma => "c".into(),
+                Token::Whitespace | Token::Comment | Token::PhysicalEndline => "b".into(),
+                Token::Endline => "e".into(),
+                Token::HashHash => "h".into(),
+                Token::LiteralInt(v) => format!("n{}", v),
+                _ => "o".into(),
+            };
+            v.push(format!("{}:{}:{}", k, t.get_location().get_raw(), t.get_end_location().get_raw()));
+        }
+        Some(if v.is_empty() { "-".to_string() } else { v.join(" ") })
+    };
+    let mut def_toks = Vec::new();
+    for f in &def_frags {
+        match show(f) {
+            Some(t) => def_toks.push(t),
+            None => return, // not lexable: outside this stream
+        }
+    }
+    let Some(cond_toks) = show(&cond_frag) else { return };
+    // ---- the real preprocessor
+    let api_refs: Vec<(&str, &str)> = api.iter().map(|(a, b)| (a.as_str(), b.as_str())).collect();
+    let r = guard(|| {
+        let mut sm = rssl::text::SourceManager::new();
+        let mut inc = MemFiles(vec![("main.rssl".to_string(), main.clone()), ("h.h".to_string(), header.clone())]);
+        match rssl::preprocess::preprocess("main.rssl", &mut sm, &mut inc, &api_refs) {
+            Ok(_) => "done".to_string(),
+            Err(e) => {
+                use rssl::text::CompileErrorExt;
+                let msg = format!("{}", e.display(&sm));
+                let first = msg.lines().next().unwrap_or("").to_string();
+                if first.contains("#if condition parser failed") {
+                    "done".to_string()
+                } else if first.contains("requires arguments") {
+                    "err:requires-arguments".to_string()
+                } else if first.contains("expected end of macro arguments") {
+                    "err:arguments-never-end".to_string()
+                } else if first.contains("different number of arguments") {
+                    "err:different-number".to_string()
+                } else if first.contains("no token on left of ##") {
+                    "err:concat-left".to_string()
+                } else if first.contains("no token on right of ##") {
+                    "err:concat-right".to_string()
+                } else if first.contains("invalid #define command") {
+                    "err:invalid-define".to_string()
+                } else {
+                    format!("other:{}", first.chars().take(80).collect::<String>())
+                }
+            }
+        }
+    });
+    let (obs, oracle) = match r {
+        Ok(o) => (o, "ok".to_string()),
+        Err(p) => {
+            let msg = p.splitn(3, ':').nth(2).unwrap_or(&p).trim().to_string();
+            (format!("panic:{}", msg), format!("FAIL:panic {}", p))
+        }
+    };
+    hist.add(&format!("defscan={}", obs.split(|c| c == ':' || c == ' ').take(2).collect::<Vec<_>>().join(":")));
+    hist.add(&format!("defscan-placement={}", placement));
+    let req = format!("C08.defscan\t{}\t{}", if def_toks.is_empty() { "-".to_string() } else { def_toks.join("|") }, cond_toks);
+    // the spec rides along as a comment field of the observation? no: requests must be replayable, so it is the
+    // *tokens* that are the request; replay re-runs the model only.  The scenario text is kept in the oracle detail.
+    let oracle = if oracle == "ok" { oracle } else { format!("{} scenario={}", oracle, spec_hex) };
+    out.case(&format!("{}\t{}", req, spec_hex), &obs, &oracle);
+}
+
 // ------------------------------------------------------------------------------------------ driver
 
 fn emit(out: &mut Out, line: &str, r: &Res) {
@@ -985,15 +1275,75 @@ pub fn run(args: &Args, out: &mut Out) {
                 }
             } else if let Some(rest) = line.strip_prefix("C08.cond\t") {
                 cond_case(rest, out, &mut hist);
+            } else if let Some(rest) = line.strip_prefix("C08.defscan\t") {
+                if let Some(spec) = rest.split('\t').nth(2) {
+                    defscan_case(spec, out, &mut hist);
+                }
             }
         }
         out.stat(&format!("{{\"mode\":\"replay\",\"hist\":{}}}", hist.json()));
         return;
     }
 
+    if args.extra.iter().any(|e| e == "gentest") {
+        // self-test of the generators: none may panic, whatever the seed (development aid)
+        let n = args.n.unwrap_or(20000);
+        let mut bad = 0;
+        for seed in 0..n {
+            for kind in ["pp", "ppmut", "syn", "synmut", "cx", "gram", "gmut", "feat", "toks", "rep", "bytes", "prog", "pmut"] {
+                let r = guard(|| materialise(&format!("{}:{}", kind, seed)).map(|m| m.bytes.len()));
+                if let Err(p) = r {
+                    bad += 1;
+                    if bad < 20 {
+                        println!("generator {} seed {} panics: {}", kind, seed, p);
+                    }
+                }
+            }
+            let r = guard(|| gen_defscan(&mut Rng::new(seed)).len());
+            if let Err(p) = r {
+                bad += 1;
+                if bad < 20 {
+                    println!("generator defscan seed {} panics: {}", seed, p);
+                }
+            }
+        }
+        println!("gentest: {} seeds, {} panics", n, bad);
+        return;
+    }
+    if args.extra.iter().any(|e| e == "synprobe") {
+        // one request per syntax category and target: the category's template alone (development aid)
+        for (cat, alt) in syn_variants() {
+            if std::env::var("SYNPROBE_NAMES").is_ok() {
+                println!("{}#{}", cat, alt);
+                continue;
+            }
+            if let Some(text) = syn_single(cat, alt) {
+                for tgt in ALL_TARGETS {
+                    println!("C08.compile\t{}\tall\t1\t-\thex:{}", tgt.name(), hex(text.as_bytes()));
+                }
+            }
+        }
+        return;
+    }
+    if let Some(cat) = args.extra.iter().find_map(|e| e.strip_prefix("synshow=")) {
+        let (c, a) = cat.split_once('#').map(|(c, a)| (c, a.parse().unwrap_or(0))).unwrap_or((cat, 0));
+        print!("{}", syn_single(c, a).unwrap_or_default());
+        return;
+    }
     if let Some(spec) = args.extra.iter().find_map(|e| e.strip_prefix("dump=")) {
         if let Some(m) = materialise(spec) {
-            std::io::stdout().write_all(&m.bytes).unwrap();
+            let mut o = std::io::stdout();
+            for (n, v) in &m.defs {
+                writeln!(o, "-D {:?}={:?}", n, v).unwrap();
+            }
+            if !m.files.is_empty() {
+                writeln!(o, "==== {}", m.entry).unwrap();
+            }
+            o.write_all(&m.bytes).unwrap();
+            for (n, b) in &m.files {
+                writeln!(o, "==== {}", n).unwrap();
+                o.write_all(b).unwrap();
+            }
         }
         return;
     }
@@ -1008,6 +1358,11 @@ pub fn run(args: &Args, out: &mut Out) {
     }
     for letters in cond_sequences(&mut rng, if args.thorough() { 7 } else { 5 }, 300 * scale.min(10) as usize) {
         cond_case(&letters, out, &mut hist);
+    }
+
+    for _ in 0..(600 * scale.min(10)) {
+        let spec = gen_defscan(&mut rng);
+        defscan_case(&hex(spec.as_bytes()), out, &mut hist);
     }
 
     // ---- the property's own oracle: compile under supervision
@@ -1054,6 +1409,47 @@ pub fn run(args: &Args, out: &mut Out) {
         })
         .collect();
     let wall = t0.elapsed().as_secs_f64();
+
+    // syntactic categories: by construction for the syn stream (emitted / reached the end of compile()), by a
+    // substring detector for every other in-memory stream (one count per distinct input)
+    {
+        let mut seen: std::collections::BTreeSet<&str> = std::collections::BTreeSet::new();
+        for (q, r) in reqs.iter().zip(&rs) {
+            let kind = q.input.split(':').next().unwrap_or("?");
+            let ok = r.obs.starts_with("ok:");
+            if kind == "synone" && ok {
+                if let Some(c) = q.input.split(':').nth(1).and_then(|s| s.parse::<usize>().ok()).and_then(|k| syn_variants().get(k).map(|v| v.0)) {
+                    hist.add(&format!("catok/syn/{}", c));
+                }
+            }
+            if kind == "syn" {
+                if let Some(seed) = q.input.split(':').nth(1).and_then(|s| s.parse::<u64>().ok()) {
+                    if ok {
+                        for c in &gen_syn(&mut Rng::new(seed)).cats {
+                            hist.add(&format!("catok/syn/{}", c));
+                        }
+                    }
+                }
+            }
+            if matches!(kind, "repo" | "rmut" | "bytes" | "hex" | "hexd" | "hexm") || !seen.insert(q.input.as_str()) {
+                continue;
+            }
+            if let Some(m) = materialise(&q.input) {
+                let mut text = String::from_utf8_lossy(&m.bytes).to_string();
+                for (_, b) in &m.files {
+                    text.push_str(&String::from_utf8_lossy(b));
+                }
+                for c in detect_categories(&text) {
+                    hist.add(&format!("det/{}/{}", kind, c));
+                }
+            }
+        }
+        for k in ["toks", "rep", "gram", "gmut", "feat", "prog", "pmut", "syn", "synmut", "pp", "ppmut"] {
+            for (c, _) in SYN_NEEDLES {
+                hist.0.entry(format!("det/{}/{}", k, c)).or_insert(0);
+            }
+        }
+    }
 
     // distributions and timing
     let mut worst_ratio = 0.0f64; // ns per byte^2, inputs >= 512 bytes
